@@ -26,6 +26,7 @@ from .. import coqrun
 from ..core import Corr
 from ..coqrun import cnat, clist, cbool, cq
 from ..translate import quat as quat_tr
+from ..translate import kalign as kalign_tr
 
 PID = "C12"
 ALLOWED_AXIOMS = {
@@ -47,13 +48,16 @@ ASSUMPTIONS = [
     "algorithm 'hungarian_uno' needs networkx and cannot run offline: atom-map search is exercised through atoms_map=True and "
     "algorithm='permutative' (<= 7 atoms) only",
 ]
-EXTRA_TARGETS = ["Model/Kabsch.vo"]
+EXTRA_TARGETS = ["Model/Kabsch.vo", "Model/KabschPerm.vo", "Model/KabschW.vo"]
 REQ = ["QV.Common.Outcome", "QV.Common.AlignAlg", "QV.Common.AlignAlgQuat", "QV.Gen.Quat", "QV.Model.Mill", "QV.Model.Kabsch"]
+REQP = REQ + ["QV.Model.KabschPerm"]
+REQW = REQ + ["QV.Gen.KabschAlign", "QV.Model.KabschW"]
 TOL = 1e-8
 
 
 def translate(ctx):
     quat_tr.generate(ctx.repo)
+    kalign_tr.generate(ctx.repo)
 
 
 # ---------------------------------------------------------------------------------------------
@@ -385,6 +389,70 @@ def case_kselect(rng):
     return case, term
 
 
+def case_kweighted(rng):
+    """kabsch_align with and without weights against the TRANSLATED kabsch_align (Gen/KabschAlign.v)"""
+    from qcelemental.molutil import kabsch_align
+    R, C = pair_for_align(rng)
+    n = len(R)
+    if rng.random() < 0.3:
+        sw = [1.0] * n
+        weight = None
+    else:
+        sw = [rng.choice([0.25, 0.5, 1.0, 1.0, 1.5, 2.0]) for _ in range(n)]
+        weight = np.array([x * x for x in sw]) if rng.random() < 0.5 else [x * x for x in sw]
+    with EighTap() as tap:
+        rmsd, RR, TT = kabsch_align(R.copy(), C.copy(), weight=weight)
+    if len(tap.calls) > 1:
+        return {"kind": "kweighted", "R": R.tolist(), "C": C.tolist(), "error": "eigh called more than once"}, None
+    q = tap.calls[0][2][:, -1] if tap.calls else np.array([1.0, 0, 0, 0])
+    sumw = sum(x * x for x in sw)
+    term = "(WAlign %s %s %s %s %s %s %s %s %s %s)" % (CTOL, cpts(R), cpts(C), clist(sw, fq), fq(sumw), cvec(q), fq(b2a()), fq(rmsd), cmat3(RR), cvec(TT))
+    return {"kind": "kweighted", "R": R.tolist(), "C": C.tolist(), "sw": sw, "weighted": weight is not None, "rmsd": float(rmsd)}, term
+
+
+def case_kperm(rng):
+    """_plausible_atom_orderings(algorithm='permutative'): every ordering it yields, in order"""
+    import qcelemental.molutil.align as al
+    from qcelemental.util import distance_matrix
+    from qcelemental.exceptions import ValidationError
+    n = rng.choice([1, 2, 3, 3, 4, 4, 5, 5, 6, 6, 7])
+    R = gen_geometry(rng, n, rng.choice(["generic", "generic", "planar", "symmetric", "collinear"]))
+    alphabet = rng.choice([["C", "H"], ["C", "H", "O"], ["C", "H", "O", "N", "F"], ["H"]])
+    runiq = np.array([rng.choice(alphabet) for _ in range(n)])
+    perm = list(range(n))
+    rng.shuffle(perm)
+    k = rng.random()
+    if k < 0.6:
+        C = (R @ rational_rotation(rng) + np.array([rng.randint(-40, 40) / 8 for _ in range(3)]))[perm, :]
+    elif k < 0.8:
+        C = (R + np.array([[rng.randint(-6, 6) / 8 for _ in range(3)] for _ in range(n)]))[perm, :]
+    else:
+        C = gen_geometry(rng, n, "generic")
+    cuniq = runiq[perm]
+    if rng.random() < 0.08 and n > 1:
+        cuniq = cuniq.copy()
+        cuniq[rng.randrange(n)] = rng.choice(["C", "H", "O", "Xx"])      # possibly a different multiset of labels
+    try:
+        out = [list(map(int, o)) for o in al._plausible_atom_orderings(runiq, cuniq, R, C, algorithm="permutative", verbose=0)]
+        res = ("Ok", out)
+    except ValidationError:
+        res = ("Err", "Validation")
+    except Exception as e:
+        return {"kind": "kperm", "R": R.tolist(), "C": C.tolist(), "runiq": list(map(str, runiq)), "cuniq": list(map(str, cuniq)),
+                "error": "%s: %s" % (type(e).__name__, e)}, None
+    if res[0] == "Ok" and len(res[1]) > 1500:
+        return {"kind": "kperm", "skipped": True}, None
+    names = {}
+    for x in list(runiq) + list(cuniq):
+        names.setdefault(str(x), len(names))
+    rr, cc = distance_matrix(R, R), distance_matrix(C, C)
+    o = "(Ok %s)" % clist([clist(x, cnat) for x in res[1]]) if res[0] == "Ok" else "(Err Validation)"
+    term = "(PCase %s %s %s %s %s)" % (clist([names[str(x)] for x in runiq], cnat), clist([names[str(x)] for x in cuniq], cnat),
+                                     clist(rr.reshape(-1), fq), clist(cc.reshape(-1), fq), o)
+    return {"kind": "kperm", "R": R.tolist(), "C": C.tolist(), "runiq": list(map(str, runiq)), "cuniq": list(map(str, cuniq)),
+            "n_orderings": len(res[1]) if res[0] == "Ok" else -1}, term
+
+
 MODEL_KINDS = [("kquat", case_kquat), ("kalign", case_kalign), ("kapplied", case_kapplied), ("kselect", case_kselect)]
 
 # ---------------------------------------------------------------------------------------------
@@ -622,7 +690,10 @@ def correspond(ctx):
         name, fn = MODEL_KINDS[k % len(MODEL_KINDS)]
         if name == "kselect" and (k // len(MODEL_KINDS)) % 3 != 0:
             name, fn = MODEL_KINDS[(k // len(MODEL_KINDS)) % 3]         # the driver is slower: every third round only
-        case, term = fn(rng)
+        try:
+            case, term = fn(rng)
+        except Exception as e:       # the implementation raised where the builders expect none
+            case, term = {"kind": name, "error": "%s: %s" % (type(e).__name__, e)}, None
         corr.count("model-" + name)
         if term is None:
             if "error" in case:
@@ -663,6 +734,47 @@ def correspond(ctx):
         bad.sort()
         errors = still
     corr.errors.extend(f"shard {k}: {e}" for k, e in errors)
+    # the translated kabsch_align, weighted and unweighted
+    wcases, wterms = [], []
+    for _ in range(3000 if ctx.thorough else 300):
+        try:
+            case, term = case_kweighted(rng)
+        except Exception as e:
+            case, term = {"kind": "kweighted", "error": "%s: %s" % (type(e).__name__, e)}, None
+        corr.count("model-kweighted")
+        if term is None:
+            corr.failures.append({"stream": "model-kweighted", "case": case, "what": "implementation misbehaved: " + case.get("error", ""), "observed": {}})
+            continue
+        wcases.append(case)
+        wterms.append(term)
+        corr.nontriv(case)
+        corr.hit("kweighted_weighted" if case["weighted"] else "kweighted_plain")
+    badw, errw = coqrun.eval_bad_indices("C12w", REQW, "", "check_wcase", wterms, shard=40 if not ctx.thorough else 120, ty="wcase")
+    corr.errors.extend(f"weighted shard {k}: {e}" for k, e in errw)
+    for b in badw[:4]:
+        corr.disagreements.append({"stream": "model-kweighted", "case": wcases[b], "impl": "see case",
+                                   "model": "check_wcase = false (Gen/KabschAlign.v run at Q disagrees with kabsch_align)"})
+    # the permutative candidate generator
+    pcases, pterms = [], []
+    for _ in range(2400 if ctx.thorough else 240):
+        case, term = case_kperm(rng)
+        corr.count("model-kperm")
+        if term is None:
+            if "error" in case:
+                corr.failures.append({"stream": "model-kperm", "case": case, "observed": case["error"],
+                                      "what": "_plausible_atom_orderings(algorithm='permutative') raised an undocumented exception on labelled geometries"})
+            else:
+                corr.hit("kperm_skipped_large")
+            continue
+        pcases.append(case)
+        pterms.append(term)
+        corr.nontriv(case)
+        corr.hit("kperm_validation_error" if case["n_orderings"] < 0 else ("kperm_no_candidate" if case["n_orderings"] == 0 else "kperm_candidates"))
+    badp, errp = coqrun.eval_bad_indices("C12perm", REQP, "", "check_pcase", pterms, shard=30 if not ctx.thorough else 80, ty="pcase")
+    corr.errors.extend(f"perm shard {k}: {e}" for k, e in errp)
+    for b in badp[:4]:
+        corr.disagreements.append({"stream": "model-kperm", "case": pcases[b], "impl": "see case",
+                                   "model": "check_pcase = false (Model/KabschPerm.v yields other orderings or another order)"})
     for b in bad[:6]:
         c = cases[b]
         corr.disagreements.append({"stream": "model-" + c["kind"], "case": c, "impl": "see case",
@@ -694,6 +806,17 @@ def replay(ctx, rp):
     if case.get("kind") in ("rigid_fixed", "rigid_perm", "unrelated", "mirror", "molecule"):
         bad = run_oracle(case)
         return {"case": case, "oracle": bad[0] if bad else None, "observed": bad[1] if bad else None, "fails": bool(bad)}
+    if case.get("kind") == "kperm":
+        import qcelemental.molutil.align as al
+        from qcelemental.exceptions import ValidationError
+        try:
+            list(al._plausible_atom_orderings(np.array(case["runiq"]), np.array(case["cuniq"]), np.array(case["R"], dtype=float),
+                                              np.array(case["C"], dtype=float), algorithm="permutative", verbose=0))
+        except ValidationError:
+            return {"case": case, "observed": "ValidationError", "fails": False}
+        except Exception as e:
+            return {"case": case, "observed": "%s: %s" % (type(e).__name__, e), "fails": True}
+        return {"case": case, "observed": "no exception", "fails": False}
     if case.get("kind") == "kselect":
         # the driver misbehaved while a model case was built: run it again on the recorded input
         R, C = np.array(case["R"], dtype=float), np.array(case["C"], dtype=float)
